@@ -156,8 +156,8 @@ CLAIMED = {
          'decode with the object\'s version demanded, their round trip returns the identical program for every valid program and generated prefix, and whatever is accepted has the '
          'prefix, one case and the checksum variant of its version. SegwitAddress.__init__ (class string to numeric version; witness_program wins over address; TypeError '
          'otherwise) and PublicKey.get_segwit_address are translated as well: objects re-created from their own address string or program hold the identical program '
-         '(translated constructor and to_string), and the P2WPKH object of a key holds version 0 and HASH160 of the compressed key. is_address_bech32 is translated and equals the model predicate on every string; the script= '
-         'constructor branch is tied by the correspondence run.',
+         '(translated constructor and to_string), and the P2WPKH object of a key holds version 0 and HASH160 of the compressed key. is_address_bech32 is translated and equals the model predicate on every string; so is the script= '
+         'constructor branch (SHA-256 of the script bytes under the class version).',
          NOTE_COMMON + 'partial: detection of 3-4 substituted characters rests on an exhaustive compiled computation, not on a theorem.',
          'Lean 4 proof over translated source (all of bech32.py) + differential correspondence', '6/C11'),
  'C12': ('Kernel-checked theorems: the five locking-script templates evaluate, through the generated opcode dictionaries and the push-form tie, to the '
